@@ -501,7 +501,7 @@ pub fn fixture(seed: u64, which: u64, tier: Tier, work: &std::path::Path) -> Res
         unique_keys: false,
     };
     let dir = DirCase { seed: rng.next(), vstores: vec![false, true], stores: vec![files], indexes: vec![IndexDef { name: "files".into(), store: 0, offset: 0, count: 600 }], defer: 0, free: 0 };
-    let case = ContCase { content, dir, pkg: Pkg::OneFile, extra: vec![] };
+    let case = ContCase { content, dir, pkg: Pkg::OneFile, extra: vec![], id_gap: 0 };
     let scratch = Scratch::new(work, "c07fix");
     let created = create_container(&case, &scratch.dir, "c.jbk", Arc::new(()))?;
     let _ = std::fs::remove_dir_all(scratch.dir.join("inputs"));
